@@ -144,7 +144,8 @@ class ContractContext:
     def check_hostname(self, v):
         v = bool(v)
         if self.flavour != "ssl":
-            self._check_hostname = False        # pyOpenSSL contexts ignore it
+            # PyOpenSSLContext.check_hostname is a plain attribute: it keeps what it is given and nothing ever acts on it
+            self._check_hostname = v
             return
         if v and self._verify_mode == ssl.CERT_NONE:
             self._verify_mode = ssl.CERT_REQUIRED
@@ -169,14 +170,15 @@ class ContractContext:
 
     def wrap_socket(self, sock, server_side=False, do_handshake_on_connect=True, suppress_ragged_eofs=True,
                     server_hostname=None, tls_in_tls=False):
-        if self._check_hostname and not server_hostname:
+        enforce_name = self._check_hostname and self.flavour == "ssl"        # only the stdlib context checks names itself
+        if enforce_name and not server_hostname:
             raise ValueError("check_hostname requires server_hostname")
         cert = self._script.cert_for(sock, server_hostname, tls_in_tls)
         self.log.append(("handshake", server_hostname, int(self._verify_mode), self._check_hostname))
         if self._verify_mode != ssl.CERT_NONE and cert.issuer not in self.cas:
             raise ssl.SSLCertVerificationError(1, "[SSL: CERTIFICATE_VERIFY_FAILED] certificate verify failed: unable to get local "
                                                   "issuer certificate")
-        if self._check_hostname and not _name_ok(cert, server_hostname, self.hostname_checks_common_name):
+        if enforce_name and not _name_ok(cert, server_hostname, self.hostname_checks_common_name):
             raise ssl.SSLCertVerificationError(1, "[SSL: CERTIFICATE_VERIFY_FAILED] certificate verify failed: Hostname mismatch")
         return TlsSock(sock, self, server_hostname, cert, tls_in_tls)
 
